@@ -43,6 +43,7 @@ func C03(r *core.Run) {
 	rule105(r)
 	rule027(r)
 	rule163(r, hostMiddlewares(r))
+	rule0212(r)
 }
 
 type addSite struct {
